@@ -129,7 +129,11 @@ def family_strategies():
         "seed": seed})
     fexpr_req = st.fixed_dictionaries({"kind": st.just("fexpr"), "grid": gi, "newgrid": st.booleans(),
                                        "a": st.sampled_from([1.0, 2.0]), "rank": st.sampled_from([0, 0, 1])})
-    return {"op": op_req, "vop": vec_req, "pde": pde_req, "expr": expr_req, "fexpr": fexpr_req}
+    linked_req = st.fixed_dictionaries({"kind": st.just("op_linked"), "arr": st.integers(0, 1), "newbc": st.booleans(),
+                                        "content": st.sampled_from([1.0, 1.0, 5.0, -2.0]), "seed": seed,
+                                        "keep_op": st.sampled_from([True, True, False])})
+    return {"op": op_req, "vop": vec_req, "pde": pde_req, "expr": expr_req, "fexpr": fexpr_req,
+            "linked": linked_req}
 
 
 def family_of(req):
@@ -142,6 +146,8 @@ def family_of(req):
         return "expr"
     if k == "fexpr":
         return "fexpr"
+    if k == "op_linked":
+        return "linked"
     return "op"
 
 
@@ -182,7 +188,7 @@ def near_request(draw, prev, fams):
 
 def request_strategy(h):
     fams = family_strategies()
-    base = st.one_of(fams["op"], fams["op"], fams["vop"], fams["pde"], fams["expr"], fams["fexpr"])
+    base = st.one_of(fams["op"], fams["op"], fams["vop"], fams["pde"], fams["expr"], fams["fexpr"], fams["linked"])
     if not h.reqs:
         return base
     prev = st.sampled_from(h.reqs[-4:])
@@ -264,6 +270,29 @@ def evaluate(req, store):
             return [np.asarray(e(x))]
         f = e.get_function(backend=req["route"])
         return [np.asarray(f(x))]
+    if kind == "op_linked":
+        # operator whose x-boundary values are *linked* to one of two external arrays that
+        # hold equal content initially; the arrays are changed in place between requests
+        from vlib.gen_grids import build_grid
+
+        spec = GRIDS[6]
+        grid = store.setdefault("linked_grid", build_grid(spec))
+        arrays = store.setdefault("linked_arrays", {})
+        k = req["arr"]
+        if k not in arrays:
+            arrays[k] = np.full(4, 1.0)
+        arrays[k][...] = req["content"]
+        key = ("linked_bcs", k)
+        if key not in store or req["newbc"]:
+            bcs = grid.get_boundary_conditions({"x": {"value": 0.0}, "y": {"derivative": 0.0}})
+            bcs[0].low.link_value(arrays[k])
+            bcs[0].high.link_value(arrays[k])
+            store[key] = bcs
+        okey = ("linked_op", k)
+        if okey not in store or req["newbc"] or not req.get("keep_op", True):
+            store[okey] = get_backend("numba").make_operator(grid, "laplace", bcs=store[key])
+        op = store[okey]  # a caller may keep the operator while the linked array changes
+        return [op(_data(spec, 0, req["seed"], "f8"), args=_nb_args(0.0))]
     if kind == "fexpr":
         # field from an expression using the special `cartesian` constant; the history keeps
         # ONE consts dictionary and passes it to every such call (a caller's own dictionary)
